@@ -70,7 +70,8 @@ pub fn exp_stub_f64(x: f64) -> f64 {
 // ---- generators
 pub fn any_conf() -> Confidence {
     let l: f64 = kani::any();
-    kani::assume(l > 0.0 && l < 1.0);
+    // every level except the outermost 1e-12 tails (where statrs' real inverse CDF, used by native replays, needs very long)
+    kani::assume(l >= 1e-12 && l <= 1.0 - 1e-12);
     match kani::any::<u8>() % 3 {
         0 => Confidence::TwoSided(l),
         1 => Confidence::UpperOneSided(l),
